@@ -315,6 +315,19 @@ def run(prop, tier, replay=None):
             records.append(rec)
             meta[rid] = {'lens': rec['scn']['lens'], 'cut': rec['scn']['cut'], 'endk': 'none', 'plan': [], 'sender_calls': scalls[:12]}
             n_sent += 1
+    # body lengths around the multiples of the usual chunk sizes: a sender that slices its packet must not lose the tail
+    chunks = (4096, 16384, 65536) + ((1 << 20,) if tier == 'thorough' else ())
+    for c in chunks:
+        for mult in (1, 2):
+            for d in (-5, -4, -3, -2, -1, 0, 1, 2):
+                L = c * mult + d
+                _, objs1 = _frames_for([L], remote)
+                rec, scalls = execute_sent(remote, objs1 + [5], random.Random(rng.random()))
+                rid = 'r%d' % len(records)
+                rec['id'] = rid
+                records.append(rec)
+                meta[rid] = {'lens': rec['scn']['lens'], 'cut': rec['scn']['cut'], 'endk': 'none', 'plan': [], 'sender_calls': scalls[:12]}
+                n_sent += 1
     ev.cov['sender_executions'] = n_sent
 
     # 4. TLC judges every real execution with the C10 operators
